@@ -21,6 +21,7 @@
 -/
 import BufrModel.Props.C09
 import BufrModel.Lemmas.WireSimComp
+import BufrModel.Lemmas.WireSimLinks
 namespace Bufr
 open Bufr.C09
 
@@ -196,5 +197,107 @@ theorem C09_compressed_missing_count_breaks :
       (r.1.map (·.vals), (wireAll exTM true r.1).toOption.map fun trees =>
         (r.1.zip trees).map fun p => (renderNested p.1 p.2 >>= nestedJsonToFlat).toOption)) =
     some ([[.int 1, .int 9], [.missing, .int 9]], some [some [.int 1, .int 9], none]) := by decide +kernel
+
+/-! ## Stage 2 (NOT closed): 206YYY and the bitmap machine without associated fields
+
+  `C09.wireLinksOK` (View/WireClass.lean) is the decidable class: an abstract interpretation of the template that
+  keeps the wiring pass's own flags, the SET of values the coder's QA status can have, the two stats-meaning flags
+  and a pending 206 skip; no 203 / 204 / 221; a class 33 element only where both walks agree on what it is.
+  PROVED (Lemmas/WireSimLinks.lean): the coder's side of every step (`bitmapDefinition_vis`: the bitmap-definition
+  machine touches nothing the wiring pass sees; `elementDescriptor_links` / `qaPart_done`: an element records at most
+  one link, keyed by its own position, exactly when it is of class 33 and the QA status is not `na`, then ONE item),
+  soundness of the abstract QA transfer functions (`qaIn_non33`, `qaIn_c33`, `qaIn_marker`), the relation `R` with
+  its three constructors (`R.value`, `R.stay`, `R.attr`: the attribute is put under the owner `lookupLink` finds),
+  `lookupLink_mem`, the evaluation of the wiring pass's steps (`wireElement_plain`, `bitmapAttr_eval`).
+  MISSING: the mutual induction over the template that chains these steps (`walkList_sim2 : absList ds a = some a' →
+  Inv2 a s → walkList P ds s = .ok s' → Sim2 a a' ...`), hence the theorem
+  `wireLinksOK t → decodeSubset t bits = .ok (o, _) → ∃ w, wireRaw t o = .ok w ∧ w.st.next = o.vals.length ∧ w.sideOK o`.
+  Until then the implication is CHECKED on every case of the correspondence run (driver: `wire_links_ok`, `side_ok`;
+  harness counter `inside-wireLinksOK`), and the examples below evaluate it on the shapes the class admits and show
+  that each shape it excludes really breaks the statement. -/
+
+/-- the statement, evaluated: the decode succeeds, the pass succeeds, consumed everything, side conditions hold, every
+    attached attribute sits under the owner the coder's link names and every link is shown -/
+def linkStatement (t : List Desc) (bits : Bits) : Bool :=
+  match decodeSubset t bits with
+  | .error _ => false
+  | .ok (o, _) =>
+    match wireRaw t o with
+    | .error _ => false
+    | .ok w => w.sideOK o &&
+        w.st.tab.all (fun p => match p.2.index? with
+          | some i => lookupLink o.links i == some p.1
+          | none => false) &&
+        o.links.all (fun q => w.st.tab.any fun p => p.2.index? == some q.1)
+
+def zeros' (n : Nat) : Bits := List.replicate n false
+def exQ33 : Elem := { id := 33007, kind := .codeflag, nbits := 7, scale := 0, ref := 0 }
+def exB : Elem := { id := 31031, kind := .codeflag, nbits := 1, scale := 0, ref := 0 }
+def exM (id : Nat) : Elem := { id := id, kind := .codeflag, nbits := 6, scale := 0, ref := 0 }
+
+/-- inside: `012001 012002 222000 236000 101002 031031 101002 033007  224000 237000 008023 101002 224255
+    206008 063250 232000 237000 232255 232255 235000` (all bits 0: every bit-map bit selects) -/
+def exIn : List Desc :=
+  [.elem (exE 12001 12), .elem (exE 12002 12), .op 222000, .op 236000, .fixedRep 101002 [.elem exB],
+   .fixedRep 101002 [.elem exQ33], .op 224000, .op 237000, .elem (exM 8023), .fixedRep 101002 [.op 224255],
+   .op 206008, .undefElem 63250, .op 232000, .op 237000, .op 232255, .op 232255, .op 235000]
+
+example : wireLinksOK exIn = true ∧ quietList false exIn = false ∧ quietList true exIn = false := by decide +kernel
+example : linkStatement exIn (zeros' 200) = true := by decide +kernel
+
+/-- inside: a delayed definition and a delayed run of quality values: `012001 222000 101000 031001 031031 101000 031001 033007` -/
+def exIn2 : List Desc :=
+  [.elem (exE 12001 12), .op 222000, .delayedRep 101000 (.elem (exE 31001 8)) [.elem exB],
+   .delayedRep 101000 (.elem (exE 31001 8)) [.elem exQ33]]
+
+def exBits2 : Bits := zeros' 12 ++ toBits 8 1 ++ [false] ++ toBits 8 1 ++ zeros' 7
+
+example : wireLinksOK exIn2 = true := by decide +kernel
+example : linkStatement exIn2 exBits2 = true := by decide +kernel
+
+/-- EXCLUDED, finding F15: `012001 222000 101001 031031 033007 012002 033007` - the coder left QA mode at 012002, the
+    wiring pass did not: the decode succeeds, the pass fails -/
+def exF15 : List Desc :=
+  [.elem (exE 12001 12), .op 222000, .fixedRep 101001 [.elem exB], .elem exQ33, .elem (exE 12002 12), .elem exQ33]
+
+example : wireLinksOK exF15 = false := by decide +kernel
+example : (decodeSubset exF15 (zeros' 60)).toOption.isSome = true ∧ linkStatement exF15 (zeros' 60) = false := by
+  decide +kernel
+
+/-- EXCLUDED, finding F-C07-wire-qa-across-operator (222000 followed by another bitmap operator before its quality
+    values): `012001 222000 101001 031031 223000 237000 033007` - the coder still links 033007, the wiring pass has
+    forgotten 222000: the pass succeeds, the link is not shown in the tree -/
+def exAcross : List Desc :=
+  [.elem (exE 12001 12), .op 222000, .fixedRep 101001 [.elem exB], .op 223000, .op 237000, .elem exQ33]
+
+example : wireLinksOK exAcross = false := by decide +kernel
+example : ((decodeSubset exAcross (zeros' 60)).toOption.map fun r =>
+    (r.1.links, (wireRaw exAcross r.1).toOption.map fun w => w.st.tab.length)) = some ([(5, 0)], some 0) ∧
+    linkStatement exAcross (zeros' 60) = false := by decide +kernel
+
+/-- EXCLUDED, findings F11c / F11d / F11-C07-wire-*: any 204 (`204004 031021 012001 223000 101001 031031 223255 204000`) -/
+def exF11c : List Desc :=
+  [.op 204004, .elem (exE 31021 6), .elem (exE 12001 12), .op 223000, .fixedRep 101001 [.elem exB], .op 223255,
+   .op 204000]
+
+example : wireLinksOK exF11c = false := by decide +kernel
+example : (decodeSubset exF11c (zeros' 80)).toOption.isSome = true ∧ linkStatement exF11c (zeros' 80) = false := by
+  decide +kernel
+
+/-- EXCLUDED: a stats marker before its meaning element (`012001 224000 101001 031031 224255`): AttributeError -/
+def exNoMeaning : List Desc :=
+  [.elem (exE 12001 12), .op 224000, .fixedRep 101001 [.elem exB], .op 224255]
+
+example : wireLinksOK exNoMeaning = false := by decide +kernel
+example : (decodeSubset exNoMeaning (zeros' 60)).toOption.isSome = true ∧
+    linkStatement exNoMeaning (zeros' 60) = false := by decide +kernel
+
+/-- EXCLUDED: 206YYY in front of something that is not an element (`206008 101002 012001`: the coder reads ONE skipped
+    field for the replication descriptor, the wiring pass wires the replication) -/
+def exSkipRep : List Desc := [.op 206008, .fixedRep 101002 [.elem (exE 12001 12)]]
+
+example : wireLinksOK exSkipRep = false := by decide +kernel
+example : (decodeSubset exSkipRep (zeros' 60)).toOption.isSome = true ∧
+    linkStatement exSkipRep (zeros' 60) = false := by decide +kernel
 
 end Bufr
